@@ -489,15 +489,16 @@ ACTS = ["DoCharge", "Reset", "Finish"]
 
 def _tlc_jobs(rep, jobs):
     """Run the TLC jobs of one check concurrently (they are independent processes) within the core budget.
-    job = dict(what, cfg, overrides, mc=bool, simulate, depth, seed).  Returns the results in order."""
+    job = dict(what, cfg, overrides, mc=bool, simulate, depth, seed, w=relative weight).  Results in order."""
     par = max(1, min(len(jobs), _BUDGET))
-    each = max(1, _BUDGET // par)
+    tot = float(sum(j.get("w", 1) for j in jobs))
 
     def one(j):
         if j.get("simulate"):
             return run_tlc("MC_Battery", j["cfg"], overrides=j["overrides"], simulate=j["simulate"], depth=j["depth"],
                            seed=j["seed"], workers=1, timeout=3000)
-        return run_tlc("MC_Battery", j["cfg"], overrides=j["overrides"], workers=each, coverage=bool(j.get("mc")), timeout=3000)
+        w = max(1, min(_BUDGET, int(_BUDGET * j.get("w", 1) / tot)))
+        return run_tlc("MC_Battery", j["cfg"], overrides=j["overrides"], workers=w, coverage=bool(j.get("mc")), timeout=3000)
 
     with ThreadPoolExecutor(max_workers=par) as ex:
         results = list(ex.map(one, jobs))
@@ -506,6 +507,32 @@ def _tlc_jobs(rep, jobs):
                     require_actions=ACTS if j.get("mc") else None)
         require_ok(res, j["what"])
     return results
+
+
+def _selftest_replay(rep, bhvs, laws):
+    """The binding must reject a behaviour whose recorded spec state is corrupted in one field."""
+    for b in bhvs:
+        ch = [n for n, o in enumerate(b["ops"]) if o["op"] == "charge" and o["eLo"] > 0]
+        if not ch:
+            continue
+        if run_sequence(b, PHYS[0], laws=laws)[0] is not None:
+            continue  # a genuine mismatch: reported by the replay proper
+        c = copy.deepcopy(b)
+        c["ops"][ch[0]]["lo"] += 4096  # 1e-4 of the capacity
+        c["ops"][ch[0]]["hi"] += 4096
+        d, _ = run_sequence(c, PHYS[0], laws=laws)
+        if d is None or d["field"] != "law-charge":
+            raise RuntimeError("replay self-test: a corrupted spec charge was not rejected (%r)" % (d,))
+        c = copy.deepcopy(b)
+        c["ops"][ch[0]]["eLo"] += 4096
+        c["ops"][ch[0]]["eHi"] += 4096
+        d, _ = run_sequence(c, PHYS[0], laws=laws)
+        if d is None or d["field"] != "law-rate":
+            raise RuntimeError("replay self-test: a corrupted spec energy was not rejected (%r)" % (d,))
+        rep.notes.append("replay self-test: the same behaviour with one spec field shifted by 1e-4 of the capacity was rejected "
+                         "(law-charge, law-rate)")
+        return
+    rep.notes.append("replay self-test skipped: no behaviour agrees with the implementation")
 
 
 def check_C03(tier, seed):
@@ -527,26 +554,29 @@ def check_C03(tier, seed):
                 dict(mc=1, what="exhaustive, continuous enclosure with noise draws, sequences of 2: " + inv, cfg="Battery_mc",
                      overrides=dict(small, Bats="<- BatsContSmall"))]
     else:
-        jobs = [dict(mc=1, what="exhaustive, ideal+stepwise full lattice, sequences of 2: " + inv, cfg="Battery_mc", overrides={"K": K}),
-                dict(mc=1, what="exhaustive, ideal+stepwise, sequences of 3: " + inv, cfg="Battery_mc",
-                     overrides=dict(small, Bats="<- BatsExactMid", MaxOps="= 3")),
-                dict(mc=1, what="exhaustive, continuous enclosure, sequences of 2: " + inv, cfg="Battery_mc",
-                     overrides=dict(small, Bats="<- BatsContMid")),
-                dict(mc=1, what="exhaustive, continuous enclosure, sequences of 3: " + inv, cfg="Battery_mc",
+        jobs = [dict(mc=1, w=4, what="exhaustive, ideal+stepwise full lattice, sequences of 2: " + inv, cfg="Battery_mc",
+                     overrides={"K": K}),
+                dict(mc=1, w=2, what="exhaustive, ideal+stepwise, sequences of 3: " + inv, cfg="Battery_mc",
+                     overrides=dict(small, Bats="<- BatsExactMid", MaxOps="= 3", Durs="= {2}")),
+                dict(mc=1, w=2, what="exhaustive, continuous enclosure, sequences of 2: " + inv, cfg="Battery_mc",
+                     overrides=dict(small, Bats="<- BatsContMid", Durs="= {2}")),
+                dict(mc=1, w=4, what="exhaustive, continuous enclosure, sequences of 3: " + inv, cfg="Battery_mc",
                      overrides=dict(small, Bats="<- BatsContSmall", MaxOps="= 3", Durs="= {2}"))]
     nmc = len(jobs)
     # (B) spec -> code: generation
-    jobs.append(dict(what="every single call of the %s lattice, emitted for replay" % ("medium" if quick else "full"), cfg="Battery_gen",
+    jobs.append(dict(w=2, what="every single call of the %s lattice, emitted for replay" % ("medium" if quick else "full"), cfg="Battery_gen",
                      overrides={"K": K, "Bats": "<- BatsMid", "Noises": "<- NoisesSmall"} if quick else {"K": K}))
-    nsample = 2 if quick else 8
+    nsample = 2 if quick else 4
     for i in range(nsample):
         jobs.append(dict(what="sampled call sequences of length 4 (-simulate, one random successor per call)", cfg="Battery_sample",
-                         overrides={"K": K}, simulate=1000 if quick else 5000, depth=7, seed=seed + 7919 * i))
+                         overrides={"K": K}, simulate=1000 if quick else 8000, depth=7, seed=seed + 7919 * i))
     res = _tlc_jobs(rep, jobs)
     single = res[nmc].emitted.get("BHV", [])
     seqs = [b for r in res[nmc + 1:] for b in r.emitted.get("BHV", [])]
-    n1, _ = _replay_all(rep, "C03", single, seed, nphys, False, 0)
-    n2, nsim = _replay_all(rep, "C03", seqs, seed, nphys, False, 2 if quick else 1)
+    procs = 1 if quick else max(1, min(8, _BUDGET))
+    _selftest_replay(rep, seqs, False)
+    n1, _ = _replay_all(rep, "C03", single, seed, nphys, False, 0, procs)
+    n2, nsim = _replay_all(rep, "C03", seqs, seed, nphys, False, 2, procs)
     rep.exhaustive = True
     rep.notes.append("all %d single calls of the lattice replayed (each on %d physical triples, directly and through EVSE->EV), "
                      "plus %d distinct sampled sequences of 4 calls, %d of them also as a whole Simulator run" % (n1, nphys, n2, nsim))
@@ -581,20 +611,22 @@ def check_C14(tier, seed):
                      overrides={"K": K, "Bats": "<- BatsContSmallQuiet", "MaxOps": "= 2", "Durs": "= {2}"})]
         ngen = 2
     else:
-        jobs = [dict(mc=1, what="law theorems, ideal+stepwise full lattice, every state within 2 calls: " + thm, cfg="Battery_laws",
+        jobs = [dict(mc=1, w=3, what="law theorems, ideal+stepwise full lattice, every state within 2 calls: " + thm, cfg="Battery_laws",
                      overrides={"K": K, "Bats": "<- BatsExactQuiet", "Pilots": "<- PilotsAll"}),
-                dict(mc=1, what="law theorems, continuous enclosure full lattice, every state within 2 calls: " + thm, cfg="Battery_laws",
-                     overrides={"K": K, "Bats": "<- BatsContQuiet"}),
-                dict(mc=1, what="law theorems, continuous enclosure, every state within 3 calls: " + thm, cfg="Battery_laws",
+                dict(mc=1, w=3, what="law theorems, continuous enclosure, every state within 2 calls: " + thm, cfg="Battery_laws",
+                     overrides={"K": K, "Bats": "<- BatsContMidQuiet"}),
+                dict(mc=1, w=2, what="law theorems, continuous enclosure, every state within 3 calls: " + thm, cfg="Battery_laws",
                      overrides={"K": K, "Bats": "<- BatsContSmallQuiet", "MaxOps": "= 3", "Durs": "= {2}"}),
-                dict(what="states within 2 calls, full lattice, with probe tables", cfg="Battery_lawsgen",
-                     overrides={"K": K, "MaxOps": "= 2"}),
-                dict(what="states within 3 calls, small continuous lattice, with probe tables", cfg="Battery_lawsgen",
+                dict(w=2, what="states within 1 call, full lattice, with probe tables", cfg="Battery_lawsgen", overrides={"K": K}),
+                dict(w=3, what="states within 2 calls, medium lattice, with probe tables", cfg="Battery_lawsgen",
+                     overrides={"K": K, "Bats": "<- BatsMidQuiet", "MaxOps": "= 2"}),
+                dict(w=2, what="states within 3 calls, small continuous lattice, with probe tables", cfg="Battery_lawsgen",
                      overrides={"K": K, "Bats": "<- BatsContSmallQuiet", "MaxOps": "= 3", "Durs": "= {2}"})]
-        ngen = 2
+        ngen = 3
     res = _tlc_jobs(rep, jobs)
     bh = [b for r in res[-ngen:] for b in r.emitted.get("BHV", [])]
-    n, _ = _replay_all(rep, "C14", bh, seed, nphys, True, 0)
+    _selftest_replay(rep, bh, True)
+    n, _ = _replay_all(rep, "C14", bh, seed, nphys, True, 0, 1 if quick else max(1, min(8, _BUDGET)))
     rep.exhaustive = True
     rep.notes.append("all %d emitted behaviours replayed with every probe of every visited state" % n)
     rep.sample(bh[len(bh) // 3])
